@@ -22,7 +22,7 @@ NET_SAN := -fsanitize=address,bounds,integer-divide-by-zero -fno-sanitize-recove
 NET_REPO_CFLAGS := $(REPO_CFLAGS_COMMON) -O1 -DNDEBUG -fno-inline $(NET_SAN) $(COV) -I$(EX)
 NETB := $(B)/net
 NET_LIB_OBJS := $(patsubst $(REPO)/src/%.c,$(NETB)/lib/%.o,$(LIB_SRCS))
-NET_WRAPS := socket bind ioctl setsockopt close recv sendto read write poll clock_gettime clock_nanosleep sleep timerfd_create timerfd_settime rand exit malloc calloc realloc free getenv secure_getenv isatty
+NET_WRAPS := socket bind ioctl setsockopt close recv sendto read write poll clock_gettime clock_nanosleep sleep timerfd_create timerfd_settime rand exit malloc calloc realloc free getenv secure_getenv isatty connect
 NET_WRAPFLAGS := $(foreach w,$(NET_WRAPS),-Wl,--wrap=$(w))
 
 # example program -> main symbol
@@ -134,7 +134,7 @@ REENT_BIND_OBJS := $(patsubst $(GEN)/%.c,$(REENTB)/%.o,$(BIND_SRCS))
 $(REENTB)/bind_%.o: $(GEN)/bind_%.c bindings/bind.h $(REPO_HDRS) | dirs
 	@mkdir -p $(REENTB)
 	$(CC) $(REPO_STD) -O1 -g -I$(REPO)/include $(REPO_EXTRA_INCS) -Ibindings -w -c $< -o $@
-REENT_WRAPFLAGS := $(foreach w,strtok rand srand localtime gmtime ctime asctime strerror setlocale malloc calloc realloc free getenv secure_getenv rand_r strtok_r random_r srandom_r initstate_r setstate_r drand48_r lrand48_r mrand48_r erand48_r nrand48_r jrand48_r srand48_r seed48_r lcong48_r mbrtowc mbrlen wcrtomb mbsrtowcs wcsrtombs localtime_r gmtime_r iconv iconv_close strcpy strncpy strcat strncat stpcpy stpncpy sprintf snprintf vsprintf vsnprintf memccpy mempcpy bzero explicit_bzero wmemcpy wmemmove wmemset strxfrm qsort wcscpy wcsncpy bcopy swab strtol strtoul strtoll strtoull strtod strtof $(shell cat engines/reent/libc_denylist.txt),-Wl,--wrap=$(w))
+REENT_WRAPFLAGS := $(foreach w,strtok rand srand localtime gmtime ctime asctime strerror setlocale malloc calloc realloc free getenv secure_getenv rand_r strtok_r random_r srandom_r initstate_r setstate_r drand48_r lrand48_r mrand48_r erand48_r nrand48_r jrand48_r srand48_r seed48_r lcong48_r mbrtowc mbrlen wcrtomb mbsrtowcs wcsrtombs mbrtoc32 mbrtoc16 c32rtomb c16rtomb localtime_r gmtime_r iconv iconv_close strcpy strncpy strcat strncat stpcpy stpncpy sprintf snprintf vsprintf vsnprintf memccpy mempcpy bzero explicit_bzero wmemcpy wmemmove wmemset strxfrm qsort wcscpy wcsncpy bcopy swab strtol strtoul strtoll strtoull strtod strtof $(shell cat engines/reent/libc_denylist.txt),-Wl,--wrap=$(w))
 REENT_DRV_OBJS := $(REENTB)/drv_can.o $(REENTB)/drv_canbrief.o $(REENTB)/drv_vss.o
 $(REENTB)/drv_%.o: engines/reent/drv_%.c engines/reent/drivers.h $(REPO_HDRS) | dirs
 	@mkdir -p $(REENTB)
